@@ -38,4 +38,13 @@ def replay(r: Run, path):
     m = dl.split("\t")
     print("model:", m[0][:400])
     print("spec :", (m[1] if len(m) > 1 else "")[:400])
-    return 0 if il == rec["observed"].get("impl_ok") else 1
+    # re-judge the single case
+    f = line.split("\t")
+    from fractions import Fraction
+    if f[0] == "peakseq":
+        c = dict(op="eq")
+    else:
+        c = dict(op=f[1], exact=True)
+    status, detail = peaks.compare(c, il, dl)
+    print("verdict:", status, detail[:200])
+    return 0 if status in ("ok", "skipped") else 1
